@@ -978,7 +978,15 @@ def oracle(ctx):
                     ctx.case(('uq-multi', it, sh, with_dest))
                     ctx.count('oracle:multi-valued:UnitQuaternion.interp')
                     try:
-                        singles = [UnitQuaternion(e_).interp(s1, **kw).vec for e_ in ends]
+                        # the reference for element k is the single-valued call on the SAME stored value, reached the way the library reaches it
+                        # (X[k]); an independently built operand may differ from it by one ulp of re-normalisation, and next to dot = 1 that ulp
+                        # decides between slerp's `theta == 0 -> start` exit and the general formula: the two then differ by up to the distance
+                        # of the ends (conditioning of acos at 1, far inside 1e-6) -- so that comparison gets max(1e-9, 2 * endpoint distance)
+                        singles = [multi[k_].interp(s1, **kw).vec for k_ in range(3)]
+                        indep = [UnitQuaternion(e_).interp(s1, **kw).vec for e_ in ends]
+                        loose = [max(1e-9, 2 * float(np.max(np.abs(e_ - starts)))) if float(starts @ e_) > 0 else 1e-9 for e_ in ends]
+                        if not all(np.max(np.abs(singles[k_] - indep[k_])) <= max(loose[k_], 1e-9) for k_ in range(3)):
+                            ctx.fail('oracle:multi-valued:UnitQuaternion.interp:stored-value-differs', "X[k].interp(s) differs from interp of the k-th value it was built from", rq)
                         for form, sarg in (('scalar', s1), ('length-1 list', [s1]), ('length-1 ndarray', np.array([s1]))):
                             Um = multi.interp(sarg, **kw)
                             if not (isinstance(Um, UnitQuaternion) and len(Um) == 3):
@@ -986,7 +994,7 @@ def oracle(ctx):
                             elif not all(np.max(np.abs(Um.data[k_] - singles[k_])) <= 1e-9 for k_ in range(3)):
                                 ctx.fail('oracle:multi-valued:UnitQuaternion.interp:element-wrong', f"element k of X.interp(s) ({form}) is not X[k].interp(s)", rq)
                         U1 = UnitQuaternion(lq1).interp([s1], **kw)
-                        if not (isinstance(U1, UnitQuaternion) and len(U1) == 1 and np.max(np.abs(U1.vec - singles[0])) <= 1e-9):
+                        if not (isinstance(U1, UnitQuaternion) and len(U1) == 1 and np.max(np.abs(U1.vec - indep[0])) <= 1e-9):
                             ctx.fail('oracle:length-1-s:UnitQuaternion.interp:not-the-scalar-result', "interp([s]) is not interp(s)", rq)
                     except Exception as ex:  # noqa
                         ctx.fail(f"oracle:multi-valued:UnitQuaternion.interp:no-result:{type(ex).__name__}",
